@@ -307,7 +307,7 @@ impl<'a> Interpreter<'a> {
                     stack.push_val(v.into());
                 }
                 ByteCode::MkDict(size) => {
-                    let mut map = HashMap::new();
+                    let mut entries = Vec::new();
 
                     for _ in 0..*size {
                         let key = if let CelValue::String(key) = stack.pop_val()? {
@@ -316,8 +316,13 @@ impl<'a> Interpreter<'a> {
                             return Err(CelError::value("Only strings can be used as Object keys"));
                         };
 
-                        map.insert(key, stack.pop_val()?);
+                        entries.push((key, stack.pop_val()?));
                     }
+
+                    // The stack hands the entries back last to first; insert them in
+                    // source order so a repeated key keeps its last value, as the
+                    // compile time folding does.
+                    let map: HashMap<String, CelValue> = entries.into_iter().rev().collect();
 
                     stack.push_val(map.into());
                 }
